@@ -10,7 +10,7 @@ import (
 
 func init() {
 	register("C10", propMeta{
-		Explanation: "Decides, on every path: ValidateCleanPacket succeeds only past 'cleanPoint(src,dst) < N', 'N <= maxAck(src,dst)' and a loop, starting at the clean point (or the next sequence) and stepping by one up to N, in which a stored commitment for (src,dst,loop variable) makes it fail; it dominates every write of CleanPacket and RecvCleanPacket; RecvCleanPacket additionally is dominated by ClientState.VerifyPacketCleanCommitment bound to the clean packet's src/dst/seq, the submitted proof/height and the client+store of the source-or-relay chain; the transitive store effects of both entries are limited to {clean point, ack deletions, receipt deletions}; the deleting loops run over (src,dst,loop variable) with loop variable <= N, step one; in the proof-gated entry the deletions precede the clean-point write; the clean point and maxAck are written only by their owners and maxAck is written as max(old,new); packets and acknowledgements at or below the clean point are refused (shared with C02). NOT decided: interleavings of cleans with out-of-order acknowledgements over histories.",
+		Explanation: "Decides, on every path: ValidateCleanPacket succeeds only past 'cleanPoint(src,dst) < N', 'N <= maxAck(src,dst)' and a loop, starting at the clean point (or the next sequence) and stepping by one up to N, in which a stored commitment for (src,dst,loop variable) makes it fail; it dominates every write of CleanPacket and RecvCleanPacket; RecvCleanPacket additionally is dominated by ClientState.VerifyPacketCleanCommitment bound to the clean packet's src/dst/seq, the submitted proof/height and the client+store of the source-or-relay chain; the transitive store effects of both entries are limited to {clean point, ack deletions, receipt deletions}; the deleting loops run over (src,dst,loop variable) with loop variable <= N, step one; in the proof-gated entry the deletions precede the clean-point write; the clean point and maxAck are written only by their owners and maxAck is written as max(old,new); packets and acknowledgements at or below the clean point are refused (shared with C02). Also: the proof verifiers behind VerifyPacketCleanCommitment satisfy the Merkle / Merkle-Patricia obligations of C08. NOT decided: interleavings of cleans with out-of-order acknowledgements over histories.",
 		Assumptions: []string{"cosmos-sdk store branching discards writes of failed messages"},
 		Trusted:     commonTrusted,
 	}, ruleC10)
